@@ -326,6 +326,18 @@ def check(run):
             found = search_failing_trace(src, sk, g, rnd)
             if found:
                 break
+            # the missing edge may be one that this program cannot take because of its exception classes:
+            # try the variant in which every handler catches everything that is raised
+            var = re.sub(r'except [^:]*:', 'except Exception:', src)
+            if var != src:
+                try:
+                    vfn, vgraphs = build_impl(var)
+                    vsk = skel_mod.Skel(vfn)
+                    found = search_failing_trace(var, vsk, vgraphs[vfn], rnd)
+                except Exception:   # noqa
+                    found = None
+                if found:
+                    break
         if found:
             run.violation(found[0], found[1])
         else:
@@ -377,18 +389,28 @@ def coq_cases(name, cases, ctype, fname, run):
 
 
 def search_failing_trace(src, sk, g, rnd):
-    for n in range(0, 10):
-        for dv in itertools.islice(itertools.product([1, 0, 2], repeat=n), 400):
-            r = run_trace(src, sk, list(dv))
-            if r is None:
-                continue
-            labels, mdec, returned, escaped = r
-            bad = check_trace_on_impl(g, sk, labels, escaped)
-            if bad and not is_known_handler_jump(sk, bad[1], bad[2]):
-                i, a, b, why = bad
-                return ('executed trace is not a path of the CFG: %s between node %s (%s) and node %s (%s)' % (
-                    why, a, node_text(sk, a), b, node_text(sk, b)),
-                    {'program': src, 'decisions': list(dv), 'executed': labels})
+    """Targeted search on a program whose graphs disagree: short exhaustive decision vectors first, then
+    many random ones; every executed trace is judged against the implementation's graph."""
+    def vectors():
+        for n in range(0, 7):
+            for dv in itertools.product([1, 0, 2], repeat=n):
+                yield list(dv)
+        for _ in range(1500):
+            yield [rnd.choice([0, 1, 1, 2, 3]) for _ in range(rnd.randint(3, 12))]
+    for dv in vectors():
+        try:
+            r = run_trace(src, sk, dv)
+        except RecursionError:
+            r = None
+        if r is None:
+            continue
+        labels, mdec, returned, escaped = r
+        bad = check_trace_on_impl(g, sk, labels, escaped)
+        if bad and not is_known_handler_jump(sk, bad[1], bad[2]):
+            i, a, b, why = bad
+            return ('executed trace is not a path of the CFG: %s between node %s (%s) and node %s (%s)' % (
+                why, a, node_text(sk, a), b, node_text(sk, b)),
+                {'program': src, 'decisions': list(dv), 'executed': labels})
     return None
 
 
